@@ -6,3 +6,19 @@ pub enum SkErr { Callee, Error, NotConverged, IterationFailed, TrivialSolution, 
 #[verifier::external_body] pub fn nd_usize() -> usize { unimplemented!() }
 #[verifier::external_body] pub fn arb<T>() -> T { unimplemented!() }
 #[verifier::external_body] pub fn assume_unreachable() requires false { unimplemented!() }
+// ---- S10: abstract floats.  A kept float is an opaque exec value with a real-number view; comparisons and
+// arithmetic between kept floats keep their meaning over the reals (A11: machine arithmetic treated as
+// mathematical, NaN excluded), every other float operand is an arbitrary float.
+#[verifier::external_body] #[verifier::accept_recursive_types] pub struct Fl { _p: u8 }
+impl Clone for Fl { #[verifier::external_body] fn clone(&self) -> (r: Fl) ensures r == *self { unimplemented!() } }
+impl Copy for Fl {}
+pub uninterp spec fn fv(x: Fl) -> real;
+#[verifier::external_body] pub fn fl_lt(a: Fl, b: Fl) -> (r: bool) ensures r == (fv(a) < fv(b)) { unimplemented!() }
+#[verifier::external_body] pub fn fl_le(a: Fl, b: Fl) -> (r: bool) ensures r == (fv(a) <= fv(b)) { unimplemented!() }
+#[verifier::external_body] pub fn fl_gt(a: Fl, b: Fl) -> (r: bool) ensures r == (fv(a) > fv(b)) { unimplemented!() }
+#[verifier::external_body] pub fn fl_ge(a: Fl, b: Fl) -> (r: bool) ensures r == (fv(a) >= fv(b)) { unimplemented!() }
+#[verifier::external_body] pub fn fl_add(a: Fl, b: Fl) -> (r: Fl) ensures fv(r) == fv(a) + fv(b) { unimplemented!() }
+#[verifier::external_body] pub fn fl_sub(a: Fl, b: Fl) -> (r: Fl) ensures fv(r) == fv(a) - fv(b) { unimplemented!() }
+#[verifier::external_body] pub fn fl_mul(a: Fl, b: Fl) -> (r: Fl) ensures fv(r) == fv(a) * fv(b) { unimplemented!() }
+#[verifier::external_body] pub fn fl_div(a: Fl, b: Fl) -> (r: Fl) ensures fv(b) != 0real ==> fv(r) == fv(a) / fv(b) { unimplemented!() }
+#[verifier::external_body] pub fn fl_abs(a: Fl) -> (r: Fl) ensures fv(r) == (if fv(a) >= 0real { fv(a) } else { -fv(a) }) { unimplemented!() }
